@@ -18,7 +18,7 @@
    [rows 0 f] : pre-order list of (parent id, node id, payload) of a forest;
    [ins_rows blk l l'] : l' is l with the block blk inserted, all else in place. *)
 From Coq Require Import List ZArith Bool Arith Lia Permutation.
-From NT Require Import Sx Rose Surgery SurgeryFacts Machine WF MachineFacts Effects FrameTrees CopyFacts.
+From NT Require Import Sx Rose Surgery SurgeryFacts Machine WF MachineFacts Effects FrameTrees CopyFacts CopyMulti.
 Import ListNotations.
 
 (* ---- the recursive copy (Node._add_from) ---- *)
@@ -80,7 +80,9 @@ Theorem C07_add_node : forall w ti p sti src e k b deep r w',
     get_ch pq (forest_of t') = Some (place (norm_before b) x ch) /\
     (* source unchanged, same tree: one block of new rows, every existing row as it was *)
     ins_rows (rows_t p x) (rows 0 (forest_of t)) (rows 0 (forest_of t')) /\
+    forest_of t' = upd_ch pq (place (norm_before b) x) (forest_of t) /\
     typed t' = typed t /\ calc t' = calc t /\
+    before_ok (norm_before b) ch = true /\
     (* source unchanged, other tree: the state is identical *)
     (forall tj, tj <> ti -> get_tree w' tj = get_tree w tj).
 Proof. exact add_node_effect. Qed.
@@ -133,6 +135,69 @@ Theorem C07_fresh_copy_WF : forall ty kids rg ix src n c,
   WF (TS kids rg ix ty c).
 Proof. exact WF_fresh_copy. Qed.
 Print Assumptions C07_fresh_copy_WF.
+
+(* ---- add(tree): all top-level nodes of another tree, every `before`, deep or shallow ---- *)
+(* [copy_rel ty dp topk lo hi c x] : x is the copy of c (is_copy) and all its identities are in [lo, hi).
+   [block_pos b a c _] : where the block sits in the old child list a ++ c: appended (None/False),
+   prepended (True), at the index as list.insert resolves it against the old list, directly in front
+   of the named child.  The copies are ONE block, in SOURCE ORDER, for every `before` (fix D70). *)
+Theorem C07_add_tree : forall w ti p sti b deep r w' t st ch,
+  op_add_tree w ti p sti b deep = (Ok r, w') -> ti <> sti ->
+  get_tree w ti = Some t -> get_tree w sti = Some st ->
+  children_of p (forest_of t) = Some ch ->
+  (forall n, In n (ids (forest_of t)) -> n < next w) -> NoDup (ids (forest_of st)) ->
+  exists t' pq a c xs,
+    get_tree w' ti = Some t' /\ get_tree w' sti = Some st /\
+    parent_path p (forest_of t) = Some pq /\ ch = a ++ c /\
+    get_ch pq (forest_of t') = Some (a ++ xs ++ c) /\
+    Forall2 (copy_rel (typed t) (deep_tree deep) (default_kind t None) (next w) (next w')) (forest_of st) xs /\
+    block_pos b a c (match forest_of st with [] => false | _ => true end) /\
+    (forall tj, tj <> ti -> get_tree w' tj = get_tree w tj).
+Proof. exact add_tree_effect. Qed.
+Print Assumptions C07_add_tree.
+
+(* ---- copy_to(add_self=False) / Tree.copy_to: the children of src appended in source order ---- *)
+Theorem C07_copy_to_children : forall w sti src ti target b deep r w' t st ch sch,
+  op_copy_to w sti src ti target false b deep = (Ok r, w') -> ti <> sti ->
+  get_tree w ti = Some t -> get_tree w sti = Some st ->
+  children_of target (forest_of t) = Some ch ->
+  children_of src (forest_of st) = Some sch ->
+  NoDup (ids (forest_of st)) ->
+  exists t' pq xs,
+    get_tree w' ti = Some t' /\ get_tree w' sti = Some st /\
+    parent_path target (forest_of t) = Some pq /\
+    get_ch pq (forest_of t') = Some (ch ++ xs) /\
+    Forall2 (copy_rel (typed t) deep (default_kind t None) (next w) (next w')) sch xs /\ sch <> [] /\
+    (forall tj, tj <> ti -> get_tree w' tj = get_tree w tj).
+Proof. exact copy_to_children_effect. Qed.
+Print Assumptions C07_copy_to_children.
+
+(* the same two calls into ANY tree (the source tree itself included): every row (parent, node,
+   payload) the target tree had is still there, in the same order; the allocator only advances *)
+Theorem C07_add_tree_rows : forall w ti p sti b deep r w' t,
+  op_add_tree w ti p sti b deep = (Ok r, w') -> get_tree w ti = Some t ->
+  exists t', get_tree w' ti = Some t' /\ subseq (rows 0 (forest_of t)) (rows 0 (forest_of t')) /\ next w <= next w'.
+Proof. exact add_tree_rows. Qed.
+Print Assumptions C07_add_tree_rows.
+
+Theorem C07_copy_to_children_rows : forall w sti src ti target b deep r w' t,
+  op_copy_to w sti src ti target false b deep = (Ok r, w') -> get_tree w ti = Some t ->
+  exists t', get_tree w' ti = Some t' /\ subseq (rows 0 (forest_of t)) (rows 0 (forest_of t')) /\ next w <= next w'.
+Proof. exact copy_to_children_rows. Qed.
+Print Assumptions C07_copy_to_children_rows.
+
+(* inserting several nodes with one fixed `before` (the loop of add(tree)) *)
+Theorem C07_place_all : forall xs ch,
+  place_all NApp xs ch = ch ++ xs /\
+  (forall j, j <= length ch -> place_all (NIdx (Z.of_nat j)) xs ch = firstn j ch ++ rev xs ++ skipn j ch) /\
+  (forall s a t b, ch = a ++ t :: b -> rid t = s -> Forall (fun u => rid u <> s) a -> Forall (fun u => rid u <> s) xs ->
+                   place_all (NNode s) xs ch = a ++ xs ++ t :: b).
+Proof.
+  intros xs ch. split; [apply place_all_app|split].
+  - intros j Hj. now apply place_all_idx.
+  - intros s a t b -> H1 H2 H3. now apply place_all_node.
+Qed.
+Print Assumptions C07_place_all.
 
 (* ---- source unchanged / independent ---- *)
 
@@ -247,3 +312,44 @@ Proof.
   split; [vm_compute; discriminate|]. split; [vm_compute; reflexivity|].
   split; [vm_compute; discriminate|vm_compute; reflexivity].
 Qed.
+
+(* add(tree, before=<node>): the two top-level nodes of tree 0 arrive in source order in front of node 5 *)
+Definition w8 : world :=
+  run [ONewTree false None; ONewTree false None;
+       OAdd 0 0 dA None None BNone; OAdd 0 1 dE (Some (DInt 5)) None BNone; OAdd 0 0 dB None None BNone;
+       OAdd 1 0 dE None None BNone; OAdd 1 0 dA (Some (DStr [89%Z])) None BNone] empty_world.
+Definition w8a : world := snd (step w8 (OAddTree 1 0 0 (BNode 5) None)).
+Example C07_add_tree_nonvacuous :
+    fst (step w8 (OAddTree 1 0 0 (BNode 5) None)) = Ok [8] /\
+    map rid (forest_of (nth 1 (trees w8) dflt)) = [4; 5] /\
+    map rid (forest_of (nth 1 (trees w8a) dflt)) = [4; 6; 8; 5] /\
+    ids (forest_of (nth 1 (trees w8a) dflt)) = [4; 6; 7; 8; 5] /\
+    map (strip_ids false) (firstn 2 (skipn 1 (forest_of (nth 1 (trees w8a) dflt)))) =
+      map (strip_ids false) (forest_of (nth 0 (trees w8) dflt)) /\
+    get_tree w8a 0 = get_tree w8 0 /\
+    fst (step w8 (OAddTree 1 0 0 (BIdx (-1)) (Some false))) = Ok [7] /\
+    map rid (forest_of (nth 1 (trees (snd (step w8 (OAddTree 1 0 0 (BIdx (-1)) (Some false))))) dflt)) = [4; 7; 6; 5].
+Proof. conjs; vm_compute; reflexivity. Qed.
+
+(* ---- known finding D47 (pinned by the suite): the statement WITHOUT the exception for the top node ---- *)
+(* "a typed copy made by add_child(node) without kind= has the kind of its source at the top, too" *)
+Definition C07_full_statement : Prop :=
+  forall w ti p sti src e b deep r w' t st s t' x,
+    op_add_node w ti p sti src e None b deep = (Ok r, w') ->
+    get_tree w ti = Some t -> typed t = true -> get_tree w sti = Some st ->
+    get_node src (forest_of st) = Some s ->
+    get_tree w' ti = Some t' -> get_node (next w) (forest_of t') = Some x ->
+    rkind x = rkind s.
+
+Definition s71 : rt := match get_node 1 src7 with Some s => s | None => T 0 dummy_info [] end.
+Definition x75 : rt := match get_node 5 (forest_of (nth 1 (trees w7a) dflt)) with Some s => s | None => T 0 dummy_info [] end.
+
+Theorem C07_full_statement_refuted : ~ C07_full_statement.
+Proof.
+  intros H.
+  assert (X : rkind x75 = rkind s71).
+  { apply (H w7 1 0 0 1 None BNone (Some true) [5] w7a (nth 1 (trees w7) dflt) (nth 0 (trees w7) dflt) s71 (nth 1 (trees w7a) dflt) x75);
+      vm_compute; reflexivity. }
+  vm_compute in X. discriminate.
+Qed.
+Print Assumptions C07_full_statement_refuted.
